@@ -108,7 +108,9 @@ Qed.
 
 (* ---- binary64: the returned cubic overshoots the knot ordinates by at most the construction's running error bound ---- *)
 From Flocq Require Import Core BinarySingleNaN.
-Require Import PP.FloatModel PP.ErrorBound PP.ErrorRun.
+Require Import PP.FloatModel PP.ErrorBound PP.ErrorRun PP.SafeDec.
+From Coq Require Import QArith Qreals.
+Local Open Scope R_scope.
 Theorem C05_no_overshoot_float : forall (f0 x0 y0 f1 x1 y1 : F),
   let env := [f0; x0; y0; f1; x1; y1] in
   (forall i, (1 <= i <= 4)%nat -> safe_run env (coef_e i)) -> B2R x0 < B2R x1 ->
@@ -123,4 +125,24 @@ Proof.
   assert (D := C04_cubic_deviation f0 x0 y0 f1 x1 y1 x Hs). cbv zeta in D. fold env ch er in D.
   destruct (C05_no_overshoot_up (B2R f0) (B2R x0) (B2R y0) (B2R f1) (B2R x1) (B2R y1) Hx H0 H1) as [_ B].
   specialize (B x Hin). apply Rabs_le_inv in D. lra.
+Qed.
+
+(* non-vacuity: the input of C04_float_hypotheses_hold, (f0, x0, y0, f1, x1, y1) = (0.8, 0.3, 1.0, 1.9, 2.1, 3.6), also meets the
+   remaining hypotheses of C05_no_overshoot_float: x0 < x1 and both slopes in [0, 3s] (decided in rational arithmetic) *)
+Example C05_float_hypotheses_hold :
+  let f0 := of_bits 4605380978949069210 in let x0 := of_bits 4599075939470750515 in let y0 := of_bits 4607182418800017408 in
+  let f1 := of_bits 4611235658464650854 in let x1 := of_bits 4611911198408756429 in let y1 := of_bits 4615288898129284301 in
+  (forall i, (1 <= i <= 4)%nat -> safe_run [f0; x0; y0; f1; x1; y1] (coef_e i)) /\
+  B2R x0 < B2R x1 /\
+  (let s := (B2R y1 - B2R y0) / (B2R x1 - B2R x0) in 0 <= B2R f0 <= 3 * s /\ 0 <= B2R f1 <= 3 * s).
+Proof.
+  cbv zeta. split; [exact (proj1 C04_float_hypotheses_hold)|].
+  rewrite <- !F2Q_correct.
+  assert (D : ~ (F2Q (of_bits 4611911198408756429) - F2Q (of_bits 4599075939470750515) == 0)%Q) by (vm_compute; discriminate).
+  assert (E : 3 * ((Q2R (F2Q (of_bits 4615288898129284301)) - Q2R (F2Q (of_bits 4607182418800017408))) / (Q2R (F2Q (of_bits 4611911198408756429)) - Q2R (F2Q (of_bits 4599075939470750515)))) =
+              Q2R (3 * ((F2Q (of_bits 4615288898129284301) - F2Q (of_bits 4607182418800017408)) / (F2Q (of_bits 4611911198408756429) - F2Q (of_bits 4599075939470750515))))).
+  { rewrite Q2R_mult, Q2R_div, !Q2R_minus by exact D. replace (Q2R 3) with 3; [reflexivity|unfold Q2R; cbn [Qnum Qden]; lra]. }
+  rewrite E. rewrite <- Q2R_0.
+  split; [apply Qlt_Rlt; vm_compute; reflexivity|].
+  split; split; apply Qle_Rle; vm_compute; discriminate.
 Qed.
